@@ -218,8 +218,14 @@ impl Runner {
                     .await
                     .wrap("accept()")?;
                 s.spawn(async {
-                    // May fail if the socket got closed.
-                    let addr = stream.peer_addr().context("peer_addr()")?;
+                    // May fail if the socket got closed: then there is nothing to serve.
+                    let addr = match stream.peer_addr() {
+                        Ok(addr) => addr,
+                        Err(err) => {
+                            tracing::debug!("peer_addr(): {err:#}");
+                            return Ok(());
+                        }
+                    };
                     let res = async {
                         tracing::trace!("new connection");
                         let (stream, endpoint) = preface::accept(ctx, stream)
